@@ -61,19 +61,23 @@ class ColangParser:
         """
         lines = content.split("\n")
 
+        def _closes_docstring(text: str) -> bool:
+            # The closing quotes can be followed by an end-of-line comment.
+            return re.search(r'"""[ \t]*(#.*)?$', text) is not None
+
         in_docstring = False
         for i in range(len(lines)):
             line = lines[i]
+            stripped = line.strip()
             if (
                 not in_docstring
-                and line.strip().startswith('"""')
-                and line.strip().endswith('"""')
-                and line.strip() != '"""'
+                and stripped.startswith('"""')
+                and _closes_docstring(stripped[3:])
             ):
                 pass
-            elif not in_docstring and line.strip().startswith('"""'):
+            elif not in_docstring and stripped.startswith('"""'):
                 in_docstring = True
-            elif in_docstring and line.strip().endswith('"""'):
+            elif in_docstring and _closes_docstring(stripped):
                 in_docstring = False
             elif in_docstring:
                 pass
@@ -90,7 +94,7 @@ class ColangParser:
                         \1match FlowStarted(flow_instance_uid=$instance_uid)
                         \1match FlowFinished(flow_instance_uid=$instance_uid)
                         """
-                    ),
+                    ).rstrip("\n"),
                     line,
                 )
 
